@@ -116,6 +116,10 @@ def run(tier):
     chk.cov["traces_validated_against_impl"] += len(cscripts)
     chk.cov["concurrent_states_probed"] = len(cscripts)
     bc.judge(chk, tpc, cscripts, CLAUSES, concurrent=True)
+    # real parallelism (no gates, no virtual time): 4 and 16 clients through a tripped balancer whose timeout has passed,
+    # budget = threshold = number of requests; nobody may wait forever and the breaker must close with the last success
+    import dist_common
+    dist_common.run(chk, sd, tier, ["cbstress"], {"C08"})
     chk.sample({"script": scripts[-1]["id"], "cf": scripts[-1]["cf"], "steps": scripts[-1]["steps"],
                 "events": bc.segment(tp, scripts[-1]["id"])[-6:]})
     chk.cov["exhaustive"] = True
